@@ -131,6 +131,7 @@ def configure(sess):
     sess.adapt = AdapterModel(sess)
     extract.load_module("mosaik.adapters")
     extract.load_module("mosaik.proxies")
+    extract.load_module("mosaik.simmanager")
 
 
 class _A(Contract):
@@ -304,4 +305,153 @@ class InitAndGetAdapter(_A):
                 yield {"version": v, "explicit_version": ev}
 
 
-CONTRACTS = [V3Send(), V2Send(), InitAndGetAdapter()]
+class V3Meta(_A):
+    """V3ToV2Adapter.meta (simulators older than API 3 need not declare a type): the wrapped proxy's meta with the type
+    defaulted to "time-based" ONLY IF none is declared -- a declared type (event-based, hybrid) is kept; nothing else in
+    the meta changes"""
+    target = V3 + ".meta"
+
+    def make_args(self, mk):
+        self._out = ExtProxy("out")
+        return {"self": mk.obj(V3, _out=self._out)}
+
+    def setup(self, p, A, mk):
+        super().setup(p, A, mk)
+        self._meta = LZ.LDict(mk.s.lazy, "meta", lambda it, key, nm: Opaque("declared " + str(key)))
+        p.ghost["meta"] = self._meta
+
+    def requires(self, A):
+        return True
+
+    def split_post(self, A, result):
+        log = self._p.ghost.get("log", [])
+        sets = [x for x in log if x[0] == "set"]
+        e = next((e for e in self._meta.entries if e.key == "type"), None)
+        out = {"same_meta_object_or_equal_content": result is self._meta,
+               "only_the_type_entry_is_touched": all(x[1] is self._meta and x[2] == "type" for x in log),
+               "default_is_time_based": all(x[3] == "time-based" for x in sets) and len(sets) <= 1}
+        if e is not None and e.pre_present is not None:
+            was = e.pre_present
+            out["declared_type_is_kept"] = (len(sets) == 0) if was is True else ((len(sets) == 1) if was is False else
+                                                                                 Implies(was, len(sets) == 0))
+        else:
+            out["type_entry_considered"] = False
+        return out
+
+    def ensures(self, A, result):
+        return And(*self.split_post(A, result).values())
+
+    def native_search(self, budget):
+        for typ in (None, "time-based", "event-based", "hybrid"):
+            yield {"declared_type": typ}
+
+    def native_call(self, m):
+        if "declared_type" not in m:
+            return True, "symbolic counter-models are not replayed (the native search is)"
+        from mosaik.adapters import V3ToV2Adapter
+
+        class P:
+            def __init__(self, meta):
+                self.meta = meta
+        meta = {"api_version": "2.4", "models": {"M": {"public": True, "params": [], "attrs": []}}}
+        if m["declared_type"] is not None:
+            meta["type"] = m["declared_type"]
+        before = dict(meta)
+        got = V3ToV2Adapter(P(meta)).meta
+        exp_type = m["declared_type"] or "time-based"
+        ok = got.get("type") == exp_type and {k: v for k, v in got.items() if k != "type"} == {k: v for k, v in before.items() if k != "type"}
+        return ok, f"V3ToV2Adapter.meta for a simulator declaring type {m['declared_type']!r}: type {got.get('type')!r} (expected {exp_type!r})"
+
+
+class _RunnerCall(_A):
+    """SimRunner.step / get_data / setup_done are thin wrappers around the proxy: exactly one request of the documented shape
+    is sent and the simulator's reply is handed on UNCHANGED -- no coercion (C13: what scheduler.step / get_outputs validate
+    is what the simulator sent; a float 3.5 must not silently become 3).  The JSON-serialisation error path of step() (the
+    proxy raising TypeError) is not modelled."""
+    property_ids = ["C13", "C15"]
+    method = None
+
+    def make_args(self, mk):
+        self._proxy = ExtProxy("proxy", is_base=False)
+        self._vals = self.values(mk)
+        return dict(self=mk.obj("mosaik.simmanager.SimRunner", _proxy=self._proxy, sid=Opaque("sid")), **self._vals)
+
+    def values(self, mk):
+        return {}
+
+    def expected_request(self):
+        raise NotImplementedError
+
+    def requires(self, A):
+        return True
+
+    def split_post(self, A, result):
+        fw = [c for c in self._p.ghost.get("forwarded", []) if c.what == "send"]
+        out = {"one_request": len(fw) == 1, "reply_handed_on_unchanged": bool(fw) and result is self._p.ghost.get("replies", [None])[-1]}
+        if fw:
+            req = fw[0].args[0][0]
+            if isinstance(req, SymSeq) and isinstance(req.length, int):
+                req = [req.get(i) for i in range(req.length)]
+            name, args, kwargs = self.expected_request()
+            ok = isinstance(req, (list, tuple)) and len(req) == 3 and req[0] == name and isinstance(req[1], tuple) and len(req[1]) == len(args) \
+                and all(x is y for x, y in zip(req[1], args)) and req[2] == kwargs
+            out["request_of_the_documented_shape"] = ok
+        return out
+
+    def ensures(self, A, result):
+        return And(*self.split_post(A, result).values())
+
+
+class RunnerStep(_RunnerCall):
+    target = "mosaik.simmanager.SimRunner.step"
+
+    def values(self, mk):
+        return {"time": Opaque("time"), "inputs": Opaque("inputs"), "max_advance": Opaque("max_advance")}
+
+    def expected_request(self):
+        v = self._vals
+        return "step", (v["time"], v["inputs"], v["max_advance"]), {}
+
+    def native_search(self, budget):
+        for reply in (3, 3.5, 3.0, None, "4", True, [4]):
+            yield {"step_reply": repr(reply)}
+
+    def native_call(self, m):
+        if "step_reply" not in m:
+            return True, "symbolic counter-models are not replayed (the native search is)"
+        import asyncio
+        from mosaik.simmanager import SimRunner
+        reply = eval(m["step_reply"])  # noqa: S307  (literals from native_search only)
+
+        class P:
+            meta = {"type": "time-based", "models": {}}
+
+            async def send(self, request):
+                return reply
+        loop = asyncio.new_event_loop()
+        try:
+            r = loop.run_until_complete(SimRunner("S", P()).step(1, {}, 5))
+        finally:
+            loop.close()
+        ok = r is reply or (type(r) is type(reply) and r == reply)
+        return ok, f"SimRunner.step: the simulator replied {reply!r}, scheduler.step is handed {r!r}"
+
+
+class RunnerGetData(_RunnerCall):
+    target = "mosaik.simmanager.SimRunner.get_data"
+
+    def values(self, mk):
+        return {"outputs": Opaque("outputs")}
+
+    def expected_request(self):
+        return "get_data", (self._vals["outputs"],), {}
+
+
+class RunnerSetupDone(_RunnerCall):
+    target = "mosaik.simmanager.SimRunner.setup_done"
+
+    def expected_request(self):
+        return "setup_done", (), {}
+
+
+CONTRACTS = [V3Send(), V2Send(), InitAndGetAdapter(), V3Meta(), RunnerStep(), RunnerGetData(), RunnerSetupDone()]
